@@ -68,3 +68,43 @@ Proof.
       apply (hook_not_dropped filter e (I_out c) (filter_output c)); [apply (Hf (CH_OUTPUT, _)); cbn; tauto| |exact Hp].
       intro n. apply (fs_out_filter_output c filter e Hc n d); [apply (Hf (CH_FS_OUT, _)); cbn; tauto|exact Hd|exact S5].
 Qed.
+
+(* responses on the untracked path: the raw table sees them before conntrack, whatever their conntrack state *)
+Theorem failsafe_responses_untracked : forall c raw e p,
+  cfg_ok c -> N.land (c_wg_mark c) (c_scr0 c) = 0 ->
+  (forall nb, In nb (static_raw c) -> lookup raw (fst nb) = Some (snd nb)) ->
+  disp_ok raw (raw_hep_ok CH_FS_IN) CH_FROM_HEP = true -> disp_ok raw (raw_hep_ok CH_FS_OUT) CH_TO_HEP = true ->
+  pk_ver p = c_ver c ->
+  fs_resp_ok c raw e p = true.
+Proof.
+  intros c raw e p Hc Hwg Hr S1 S2 Hv. unfold fs_resp_ok. apply andb_true_iff. split.
+  - destruct (_ && _) eqn:Econd; [|reflexivity].
+    rewrite andb_true_iff, negb_true_iff in Econd. destruct Econd as [E1 E2].
+    unfold disp_ok in S1. destruct (lookup raw CH_FROM_HEP) as [d|] eqn:Hd; [|discriminate].
+    apply (hook_not_dropped raw e (I_resp_in c) (raw_prerouting c)); [apply (Hr (CH_PREROUTING, _)); cbn; tauto| |repeat split; assumption].
+    intro n. apply (fs_resp_raw_prerouting c raw e Hc n d);
+      [intros _; split; [apply (Hr (CH_WG_MARK, _)); cbn; tauto|exact Hwg]|apply (Hr (CH_FS_IN, _)); cbn; tauto|exact Hd|].
+    unfold disp_ok. rewrite Hd. exact S1.
+  - destruct (_ && _) eqn:Econd; [|reflexivity].
+    rewrite andb_true_iff, negb_true_iff in Econd. destruct Econd as [E1 E2].
+    unfold disp_ok in S2. destruct (lookup raw CH_TO_HEP) as [d|] eqn:Hd; [|discriminate].
+    apply (hook_not_dropped raw e (I_resp_out c) (raw_output c)); [apply (Hr (CH_OUTPUT, _)); cbn; tauto| |repeat split; assumption].
+    intro n. apply (fs_resp_raw_output c raw e n d); [apply (Hr (CH_FS_OUT, _)); cbn; tauto|exact Hd|].
+    unfold disp_ok. rewrite Hd. exact S2.
+Qed.
+
+(* hook wiring: a kernel chain whose first rule is the unconditional jump to Felix's top-level chain (what the real
+   setUpIptablesNormal inserts: Model.hook_wiring, compared with the recorded calls by every run) takes Felix's
+   terminal verdict; only when Felix's chain returns do the kernel chain's remaining rules (other software's, and for
+   FORWARD the appended accept rules) see the packet. *)
+Theorem kernel_chain_first_rule : forall cs e top body rest f p,
+  lookup cs top = Some body ->
+  run (S f) cs e (R [] (AJump top) :: rest) p =
+  match run f cs e body p with
+  | RFall p' | RReturn p' => run (S f) cs e rest p'
+  | r => r
+  end.
+Proof.
+  intros cs e top body rest f p Hl. cbn [run go R ir_match ir_action matches forallb]. rewrite Hl.
+  destruct (run f cs e body p); reflexivity.
+Qed.
